@@ -42,6 +42,8 @@ IDX = ["idx(i)", "idx(i)+1", "i+idx(3)", "idx(3)", "idx(n)", "i+idx(i)", "i+idx(
 DNAMES = ["i+d_i", "i+d1_i", "i+d_i+d1_i", "i+d2_i", "d_i", "i+d_i_1", "i+d_i+d1_i+d2_i", "2*i+d_i"]
 INNER = ["j", "j+1", "i+j", "2*j", "j+n", "i+j+1", "i-j"]
 STALE = ["i+t", "t", "i+s0", "t+1"]
+SYMCOEF = ["n*i", "i*n", "n*i+1", "n*i+k", "2*n*i", "n*(i+1)", "(n+1)*i", "k*i+n", "n*i+i", "i*i", "i**2", "n*k*i",
+           "i*k", "n*k+i", "n*k"]
 SUB2 = [("i", "j"), ("j", "i"), ("i", "3"), ("3", "i"), ("i", "i"), ("i", "i+1"), ("i+1", "i"), ("i+j", "j"),
         ("i+j", "i"), ("i+j", "2"), ("i+j", "idx(j)"), ("i", "k"), ("k", "i+j"), ("i+1", "4"), ("n", "i"),
         ("i", "j+1"), ("j+1", "i"), ("i+1", "j"), ("i+j", "mod(j, 2)"), ("i", "n"), ("2*i", "j"), ("i+j", "j-j+1"),
@@ -54,7 +56,7 @@ class LoopGen:
     def __init__(self, rng, flavour=None):
         self.rng = rng
         self.flavour = flavour or rng.choice(["affine", "affine", "div", "mod", "idx", "dnames", "nest", "scalar",
-                                              "scalar", "stale", "mixed", "mixed", "dside", "dside"])
+                                              "scalar", "stale", "mixed", "mixed", "dside", "dside", "symcoef"])
         self.nest = self.flavour == "nest" or (self.flavour in ("mixed", "scalar") and rng.random() < 0.3)
 
     def pool(self, inner):
@@ -70,8 +72,10 @@ class LoopGen:
             p = DNAMES * 2 + AFFINE[:4]
         elif f == "stale":
             p += STALE * 3
+        elif f == "symcoef":
+            p += SYMCOEF * 2
         elif f == "mixed":
-            p += DIV + MOD + IDX + DNAMES[:3] + CONST
+            p += DIV + MOD + IDX + DNAMES[:3] + CONST + SYMCOEF[:6]
         if inner:
             p += INNER * (3 if f == "nest" else 1)
         return p
@@ -267,7 +271,10 @@ FREE_PAIRS = [("n", "n"), ("n", "n-1"), ("n+1", "n"), ("n", "k"), ("3", "4"), ("
               ("n/2", "n/2"), ("n/2", "(n+1)/2"), ("(n+1)/2", "n/2"), ("n/2", "n/2+1"), ("n/2+1", "n/2"),
               ("(n+2)/2", "n/2"), ("n/3", "(n+1)/3"), ("(n+2)/4", "n/4"), ("n/2", "k/2"), ("(n+3)/2", "n/2"),
               ("mod(n, 3)", "mod(n, 3)"), ("mod(n, 3)", "mod(n, 3)+1"), ("mod(n, 2)", "mod(k, 2)"),
-              ("mod(n, 2)+1", "mod(n, 2)"), ("n/2", "mod(n, 2)")]
+              ("mod(n, 2)+1", "mod(n, 2)"), ("n/2", "mod(n, 2)"),
+              # an integer power with a negative exponent is 0 in Fortran but the rational 1/2 for SymPy: the only
+              # way to a non-integer constant difference once subscripts with `/` are refused
+              ("n+2**(-1)", "n"), ("n", "n+2**(-1)"), ("n+2**(-1)", "n+2**(-1)"), ("n+1+2**(-1)", "n+2**(-1)")]
 FREE_DI = [0, 1, -1]
 
 
@@ -316,6 +323,8 @@ def gen_source(rng, flavour=None):
         return wrap_loop(rng, lines), "free2"
     g = LoopGen(rng, flavour)
     init = gen_init(rng, (1, -1, 2) if g.flavour == "dside" else (0, 1, 2))
+    if g.flavour == "symcoef":          # both sides of the coefficient being zero
+        init += [f"  n = {rng.choice((0, 0, 1, 2))}", f"  k = {rng.choice((0, 1, 1, 3))}"]
     return "\n".join(HEADER + init + g.loop() + ["end program p"]) + "\n", g.flavour
 
 
@@ -351,7 +360,9 @@ def export_case(src):
         mt = D_RE.match(nm)
         if mt and mt.group(2) == var:
             dn.append([ident, int(mt.group(1)) if mt.group(1) else 0])
-    return {"prefix": prefix, "loop": lp, "dnames": dn, "names": names.table()}, loop
+    order = [ident for _, ident in sorted(names.table().items())]       # ids in the order of the sorted signatures
+    return {"prefix": prefix, "loop": lp, "dnames": dn, "names": names.table(), "order": order,
+            "namesobj": names}, loop
 
 
 # ---- classifiers of the known findings (on the exported MiniF loop) ----------
@@ -378,6 +389,21 @@ def _has_divmod(e):
         return _has_divmod(e[2])
     if e[0] in ("idx1", "idx2"):
         return any(_has_divmod(s) for s in e[2:])
+    return False
+
+
+def _has_symcoef(e, var):
+    """a product of something that mentions the analysed loop variable with a non-literal"""
+    if e[0] == "bin":
+        if e[1] == "mul":
+            va, vb = _evars(e[2], set()), _evars(e[3], set())
+            if (var in va and vb) or (var in vb and va):
+                return True
+        return _has_symcoef(e[2], var) or _has_symcoef(e[3], var)
+    if e[0] == "un":
+        return _has_symcoef(e[2], var)
+    if e[0] in ("idx1", "idx2"):
+        return any(_has_symcoef(s, var) for s in e[2:])
     return False
 
 
@@ -461,6 +487,8 @@ def classify(loop, x):
         allsubs = [e for ss in info.subs[x] for e in ss]
         if any(_has_divmod(e) for e in allsubs):
             out.append("C08-integer-division")
+        if any(_has_symcoef(e, info.var) for e in allsubs):
+            out.append("C08-symbolic-coefficient")
         for e in allsubs:
             vs = _evars(e, set())
             if (vs & info.written) - info.inner - {info.var}:
